@@ -31,6 +31,9 @@ PROPS = {
     "C07": dict(units=["spawn", "exec"], kani=["w_pipe", "w_fork_ids"], level="proof"),
     "C15": dict(units=["exec"], kani=["b_split_path_b3"], level="proof"),
     "C17": dict(units=["spawn", "exec"], kani=[], level="proof"),
+    "C20": dict(units=[], kani=[], level="other",
+                explanation="BOUNDED stand-in, not a proof: assemble_cmdline and append_quoted live in the cfg(windows) module and are extracted mechanically into a native program that round-trips argument vectors through an independent implementation of the Microsoft parsing rules.",
+                natives=[("units/native/wincmd.nt.rs", "28907 argument vectors: 1 argument of length 0..4, pairs (length 0..2, first 400 of length 0..4) and triples of length 0..2 over the alphabet {a, space, tab, newline, double quote, backslash, U+00E9}; 57 arguments containing NUL")]),
     "C19": dict(units=["quote"], kani=[], level="proof",
                 bounded_scenarios=[("c19_shell_roundtrip", "1778 argument vectors (1-2 arguments of length 0..3 over the alphabet a,space,',\",$,*,\\,newline,e-acute, plus 24 hand-picked strings) printed through Debug and evaluated by the real /bin/sh; one two-stage pipeline")]),
     "C18": dict(units=["spawn"], kani=["w_reset_sigpipe"], level="proof"),
